@@ -138,6 +138,19 @@ class Module:
             if isinstance(base, N) and base.kind == "Enum":
                 return EnumVal(base.src or "?", n.attr, base.a["mapping"][n.attr])
             raise NotImplementedError(f"attr {ast.unparse(n)}")
+        if isinstance(n, ast.BinOp) and isinstance(n.op, (ast.Add, ast.Sub, ast.Mult, ast.FloorDiv, ast.LShift, ast.RShift, ast.BitOr, ast.BitAnd, ast.BitXor, ast.Pow, ast.Mod)):
+            # arithmetic on constants (named sizes, masks): its value
+            try:
+                l_, r_ = self.ev(n.left, loc), self.ev(n.right, loc)
+            except NotImplementedError:
+                l_ = r_ = None
+            if isinstance(l_, int) and isinstance(r_, int) and not isinstance(l_, bool) and not isinstance(r_, bool):
+                import operator as _op
+                try:
+                    return {ast.Add: _op.add, ast.Sub: _op.sub, ast.Mult: _op.mul, ast.FloorDiv: _op.floordiv, ast.LShift: _op.lshift, ast.RShift: _op.rshift, ast.BitOr: _op.or_,
+                            ast.BitAnd: _op.and_, ast.BitXor: _op.xor, ast.Pow: _op.pow, ast.Mod: _op.mod}[type(n.op)](l_, r_)
+                except Exception:  # noqa
+                    pass
         if isinstance(n, ast.BinOp) and isinstance(n.op, ast.Div):
             l, r = self.ev(n.left, loc), self.ev(n.right, loc)
             if isinstance(l, str) and isinstance(r, N):
@@ -155,6 +168,20 @@ class Module:
             if isinstance(v, (int, float)) and not isinstance(v, bool):
                 return -v if isinstance(n.op, ast.USub) else v
             return Expr(ast.unparse(n), n, self.name)
+        if isinstance(n, ast.Lambda) and loc:
+            # a lambda written inside a grammar-building helper: the helper's arguments it refers to are the (constant) values of this call
+            import copy
+            own = {a.arg for a in n.args.args}
+            consts = {k_: v_ for k_, v_ in loc.items() if isinstance(v_, (int, str, float, bool, type(None))) and k_ not in own}
+            if any(isinstance(x, ast.Name) and x.id in consts for x in ast.walk(n.body)):
+                class _Bind(ast.NodeTransformer):
+                    def visit_Name(self, node):
+                        if isinstance(node.ctx, ast.Load) and node.id in consts:
+                            return ast.copy_location(ast.Constant(consts[node.id]), node)
+                        return node
+                n2 = _Bind().visit(copy.deepcopy(n))
+                ast.fix_missing_locations(n2)
+                return Expr(ast.unparse(n2), n2, self.name)
         if isinstance(n, (ast.Compare, ast.BinOp, ast.Lambda, ast.JoinedStr, ast.UnaryOp, ast.BoolOp)):
             return Expr(ast.unparse(n), n, self.name)
         if isinstance(n, ast.Subscript):
